@@ -3,18 +3,19 @@ SPECIFICATION Spec
 CONSTANTS
   NCalls = 2
   MaxDials = 2
+  QueueLimit = 2
+  ConnCap = 2
   Policy = "code"
   MaxRetry = 2
   AttemptBound = 1
-  RandomSelect = FALSE
-  LockInOnce = FALSE
   Dev = {}
+  NoWgWait = FALSE
+  ExactScan = TRUE
   MaxFaults = 1
-  Kinds = {"eof"}
-  OrderedStart = TRUE
+  Kinds = {"stale", "dead"}
   CancelCalls = {}
   EnvTClose = FALSE
-  Coarse = TRUE
+  OrderedStart = TRUE
   WithHist = FALSE
 VIEW ViewNoHist
 INVARIANTS AttemptsBounded
